@@ -16,7 +16,7 @@ META = {
     ),
     "anchors": ["fermionic_core.tensordot_fermionic", "fermionic_core.resolve_combined_oddpos", "fermionic_local_operators.FermionicOperator.__lt__", "fermionic_core.FermionicArray.einsum", "fermionic_core.FermionicArray.transpose"],
     "floors": {
-        "quick": {"evaluations": 2500, "distinct_nontrivial": 150, "tables": {"networks": 300, "feature/odd>=2": 150, "feature/conjugated-tensor": 80, "feature/multi-label-operand": 40, "route/split-einsum": 150, "feature/bra-ket-label-pairs": 300}},
+        "quick": {"evaluations": 2500, "distinct_nontrivial": 150, "tables": {"networks": 300, "feature/odd>=2": 150, "feature/conjugated-tensor": 80, "feature/multi-label-operand": 40, "route/split-einsum": 150, "feature/bra-ket-label-pairs": 300, "feature/shared-legs>=6": 100}},
         "thorough": {"evaluations": 150000, "distinct_nontrivial": 8000, "tables": {"networks": 10000, "feature/odd>=2": 5000}},
     },
     "wall": {"quick": 100, "thorough": 1700},
@@ -61,10 +61,13 @@ def braket_network(ctx, rng, sym, label_kind):
     return out
 
 
-def case(ctx, rng, braket=False):
+def case(ctx, rng, braket=False, manylegs=False):
     sr = ctx.sr
     sym = rng.choice(gen.SYMS5)
     nt = rng.choice([2, 3, 3, 4])
+    if manylegs:
+        sym = rng.choice(["Z2", "Z2", "U1", "Z4", "Z2Z2"])
+        nt = 2
     label_kind = rng.choice(["int", "int", "tuple", "str"])
     try:
         feats = set()
@@ -72,6 +75,11 @@ def case(ctx, rng, braket=False):
             tensors = braket_network(ctx, rng, sym, label_kind)
             nt = 0
             feats.add("bra-ket-label-pairs")
+        elif manylegs:
+            # two tensors sharing 6..8 size-one-sector bonds: contracted at once, in any listed
+            # order, or some by tensordot and the rest by einsum trace
+            tensors = network.build_network(ctx, rng, sym, 2, pbond=1.0, maxdang=1, p_conj=0.25, label_kind=label_kind, maxd=1, maxc=2, multi=(6, 8), sparsity=rng.choice([0.0, 0.3, 0.6]))
+            feats.add("shared-legs>=6")
         else:
             tensors = network.build_network(ctx, rng, sym, nt, pbond=0.85, maxdang=2 if nt < 4 else 1, p_conj=0.25, label_kind=label_kind)
         if any(any(d for _, d in labels_of(t.x)) for t in tensors):
@@ -155,3 +163,5 @@ def run(ctx):
         ctx.run_case(case, ctx, rng)
     for _, rng in ctx.cases("braket-networks", ctx.budget(8000, 150000)):
         ctx.run_case(case, ctx, rng, True)
+    for _, rng in ctx.cases("many-legs", ctx.budget(600, 12000)):
+        ctx.run_case(case, ctx, rng, False, True)
